@@ -1,2 +1,2 @@
 """Sidecar contracts.  These files hold clauses only - never a statement of the code under verification."""
-from . import decls, helpers, models, abstract  # noqa: F401
+from . import decls, helpers, models, abstract, utils  # noqa: F401
